@@ -788,6 +788,32 @@ func genKflEval(r *Rand, tier string, emit func(sx.Sx)) {
 			}
 		}
 	}
+	// negative zero: the literal -0 and a -0.0 of the record are numerically zero under every operator
+	{
+		ident := func(p string) node { return callNode(p, sx.A("noparams"), sx.A("nosel"), p) }
+		obj := func(kv ...sx.Sx) sx.Sx { return sx.L(append([]sx.Sx{sx.A("o")}, pairs(kv)...)...) }
+		negZero := node{"-0", sx.L(sx.A("U"), sx.A("-"), sx.L(sx.A("P"), sx.L(sx.A("num"), sx.I(0))))}
+		for _, op := range []string{"==", "!=", ">=", "<=", ">", "<"} {
+			for _, pth := range []string{"z", "w", "arr.*"} {
+				for _, flip := range []bool{false, true} {
+					var l, rr node
+					lu, ru := wrapU(ident(pth)), negZero
+					if flip {
+						lu, ru = negZero, wrapU(ident(pth))
+					}
+					l, rr = lu, ru
+					var q node
+					if op == "==" || op == "!=" {
+						q = node{l.text + " " + op + " " + rr.text, sx.L(sx.A("Q"), wrapC(l).ast, sx.A(op), wrapQ(wrapC(rr)).ast)}
+					} else {
+						q = wrapQ(node{l.text + " " + op + " " + rr.text, sx.L(sx.A("C"), l.ast, sx.A(op), wrapC(rr).ast)})
+					}
+					e := wrapE(wrapL(q))
+					emit(sx.L(sx.S(e.text), e.ast, obj(sx.S("z"), sInt(0), sx.S("w"), sFlt("-0.0"), sx.S("arr"), sArr(sInt(1), sInt(0)))))
+				}
+			}
+		}
+	}
 	for i := 0; i < count; i++ {
 		e := g.expr(2)
 		g.pref = kflNumRe.FindAllString(e.text, -1)
@@ -834,6 +860,26 @@ func genKflFuzz(r *Rand, tier string, emit func(sx.Sx)) {
 		"http and redis and http2", "a == 1e999", "a == 0x10", "a == 1_000", "a == .5.5", "\x00", "\xff\xfe", "日本語 == \"日本語\"", "a == \"\\\"\""}
 	for _, f := range fixed {
 		emitQ(f)
+	}
+	// depth: the parser recurses once per parenthesis, unary operator and clause - queries just inside what it
+	// accepts, and far beyond (a stack overflow is fatal to the process, not a panic)
+	for _, k := range []int{1500, 300000} {
+		deep := []string{
+			strings.Repeat("(", k) + "a" + strings.Repeat(")", k),
+			strings.Repeat("(", k),
+			strings.Repeat("!", k) + "a",
+			strings.Repeat("-", k) + "a",
+			"a" + strings.Repeat(".b", k),
+			"a" + strings.Repeat("[0]", k),
+			strings.TrimSuffix(strings.Repeat(`request.payload.topics[7].name == "x" and `, k/6), " and "),
+			strings.TrimSuffix(strings.Repeat(`a or `, k/2), " or "),
+			"redact(" + strings.TrimSuffix(strings.Repeat(`"a", `, k/2), ", ") + ")",
+			strings.Repeat("a.json().", k/4) + "b == 1",
+			`b == "` + strings.Repeat("x", 8*k) + `"`,
+		}
+		for _, q := range deep {
+			emit(sx.L(sx.S(q), sx.S(goodRec)))
+		}
 	}
 	// fields that are neither JSON nor XML, with brackets of every kind in every order, under the
 	// helpers that try to read them as documents
